@@ -267,6 +267,7 @@ def drive(gen, det, motor, spec, frac, np_values, core_name):
     handed = []  # the reading objects handed to the plan, by identity
     k = n = 0
     r = None
+    core_frame = None
     status = "done"
     try:
         while True:
@@ -279,6 +280,10 @@ def drive(gen, det, motor, spec, frac, np_values, core_name):
                 sets.append(pos)
             elif cmd == "read":
                 if msg.obj is det:
+                    if frac and isinstance(pos, Fraction) and pos.denominator.bit_length() > 6000:
+                        status = "toobig"
+                        gen.close()
+                        break
                     v = resp_eval(spec, k, pos if frac else float(pos), frac)
                     if not frac:
                         v = np.float64(v) if np_values else float(v) + 0.0
@@ -289,7 +294,9 @@ def drive(gen, det, motor, spec, frac, np_values, core_name):
                 elif msg.obj is motor:
                     r = {motor.name: {"value": pos, "timestamp": 0.0}}
             elif cmd == "checkpoint" and core_name == "adaptive_core":
-                fr = _find_frame(gen, core_name)
+                if core_frame is None:
+                    core_frame = _find_frame(gen, core_name)
+                fr = core_frame
                 if fr is not None:
                     loc = fr.f_locals
                     pi = loc.get("past_I")
@@ -697,12 +704,23 @@ def _observe(case):
     if case["plan"] == "adaptive":
         return [("float", run_adaptive_impl(case))]
     out = [("float", run_tune_impl(case, False))]
-    # every response kind is closed under Fraction arithmetic -> exact run of the real code as well
+    # exact run of the real code on Fractions as well -- for responses that are piecewise linear in p (for
+    # rational responses the digits of the centroid square with every pass)
     valid = Q(case["min_step"]) > 0 and Q(case["step_factor"]) > 1 and case["num"] != 1
     b = tune_bound(case) if valid else 0
-    if b is not None and b <= FRAC_MAX_POINTS:
-        out.append(("frac", run_tune_impl(case, True)))
+    if b is not None and b <= FRAC_MAX_POINTS and _pw_linear(case["resp"]):
+        o = run_tune_impl(case, True)
+        if o["status"] != "toobig":
+            out.append(("frac", o))
     return out
+
+
+def _pw_linear(spec):
+    if spec["kind"] in ("lorentz", "sat", "creep"):
+        return False
+    if "base" in spec:
+        return _pw_linear(spec["base"])
+    return True
 
 
 def _brief(obs):
